@@ -12,6 +12,7 @@ mod core;
 mod dsp;
 mod findings;
 mod hashseed;
+mod io;
 mod mass;
 mod net;
 mod pt;
